@@ -203,6 +203,7 @@ func (s *Server) Run(addr string, opt ...Option) error {
 		if err != nil {
 			return fmt.Errorf("%s: unable to create in-memory conn: %w", op, err)
 		}
+		conn.disablePanicRecovery = s.disablePanicRecovery
 		localConnID := connID
 		verifPoint("run.accepted", connID, 0)
 		// a conn accepted while the server stops must not be served: its
